@@ -49,6 +49,7 @@ PATH_ARGS = [
 PATHLIKE = [{"path": ["b"]}, {"path.length": ["b"]}, {"Path": ["b"]}, {"path": 1, "x": 2}, {"a": {"path": ["b"]}},
             {"pathological": 1}, [{"path": ["b"]}, 1], {"path": "ab"}, {"Path.length": {"k": 1}}, {"path": None}, {"path.first": 3}]
 SRC = {"a": 1, "b": [1, 2], "m": {"x": {"k": 1}}, "lst": [0, 1, 1], "lo": 0}
+SRC2 = {"a": "a", "b": 2, "m": {"x": [1, 2]}, "lst": [1], "lo": 1, "cfg": {1: "b"}}
 
 
 def fragment():
@@ -161,6 +162,9 @@ def _terms(tier):
             other = "or" if op != "or" else "and"
             ts += [(op, a, (op, b, c3)), (op, (op, a, b), (op, c3, d)), (op, a, (op, b, (op, c3, d))), (op, (op, (op, a, b), c3), d),
                    (op, a, (other, b, c3)), (other, (op, a, b), (op, c3, d)), (op, T.NULL, (op, a, (op, b, T.NULL)))]
+        # combinations that repeat one callable with two different arguments
+        for kind in ("value", "key", "index"):
+            ts += gen.repeated_leaf_pairs(kind)
         _c[tier] = fragment() + ts
     return _c[tier]
 
@@ -308,6 +312,28 @@ def check_case(res, t, key, history=None, may_refuse=False):
     if vsnap(js2) != vsnap(js):
         res.violation("not-idempotent:%s" % nm, "re-serialising the rebuilt condition gives different data", case,
                       observed=js2, expected=js)
+        return
+    # H flavour: the condition has now been *used* (filtered with source data).  It still serialises to the same data,
+    # still equals a freshly built one, and resolves its path arguments against whatever document it is given next
+    res.count("transitions", 3)
+    try:
+        js3 = c.to_json_like()
+        fresh_c = T.build_cond(t)
+        eq3 = (c == fresh_c) and (fresh_c == c)
+        outs = []
+        for doc in probe_docs(t):
+            for x in (c, fresh_c):
+                try:
+                    outs.append(x.filter(fresh(doc), source_data=fresh(SRC2)).result)
+                except BaseException as e:
+                    outs.append("raises " + type(e).__name__)
+    except BaseException as e:
+        res.violation("after-use:%s:%s" % (type(e).__name__, nm), "serialising / comparing %s after it was used raised %r" % (T.show(t), e),
+                      case, observed=repr(e))
+        return
+    if vsnap(js3) != vsnap(js) or not eq3 or outs[0::2] != outs[1::2]:
+        res.violation("after-use:%s" % nm, "after filtering once with source data, %s no longer serialises / compares / filters like a "
+                      "freshly built one" % T.show(t), case, observed=(js3, eq3, outs[0::2]), expected=(js, True, outs[1::2]))
         return
     res.count("validated")
     res.count("nontrivial")
